@@ -1,8 +1,4 @@
 #!/bin/bash
-# every behaviour-preserving change kept under benign/ must leave its property's check at exit 0
+# every behaviour-preserving change kept under benign/ must leave its property's check at exit 0 (3 at a time)
 cd /verif
-for d in benign/*/; do
-  n=$(basename $d); P=${n%%-*}
-  mkdir -p /tmp/benall/$n; rm -rf /tmp/benall/$n/*; cp -r $d /tmp/benall/$n/benign_$n
-  python3 tools/check_benign.py $P /tmp/benall/$n | grep -v "benign change(s)"
-done
+ls -d benign/*/ | sed 's#/$##' | xargs -P 3 -I{} sh -c 'n=$(basename {}); P=${n%%-*}; mkdir -p /tmp/benall/$n; rm -rf /tmp/benall/$n/*; cp -r {} /tmp/benall/$n/benign_$n; python3 tools/check_benign.py $P /tmp/benall/$n | grep -v "benign change(s)"'
